@@ -127,7 +127,19 @@ func rootIdent(e ast.Expr) *ast.Ident {
 }
 
 func dumpAsnGlobals() {
-	dir := filepath.Join(repoRoot(), "cdr", "asn")
+	var sb strings.Builder
+	sb.WriteString("/- GENERATED from the repository's working tree by `verifharness dump-tables asnglobals` — do not edit. -/\n")
+	sb.WriteString("import ChfVerif.Model.CodecState\nnamespace Chf.Gen\nopen Chf.CodecState\n\n")
+	sb.WriteString(packageGlobalsLean(filepath.Join("cdr", "asn"), "asn", "asnGlobals"))
+	sb.WriteString("\n")
+	sb.WriteString(packageGlobalsLean(filepath.Join("cdr", "cdrFile"), "cdrFile", "cdrFileGlobals"))
+	sb.WriteString("\nend Chf.Gen\n")
+	fmt.Print(sb.String())
+}
+
+// packageGlobalsLean: the table for one package of the repository (directory relative to the root, default import name, Lean name)
+func packageGlobalsLean(rel, pkgName, leanName string) string {
+	dir := filepath.Join(repoRoot(), rel)
 	ents, err := os.ReadDir(dir)
 	if err != nil {
 		fmt.Fprintln(os.Stderr, err)
@@ -312,8 +324,8 @@ func dumpAsnGlobals() {
 		alias := ""
 		for _, im := range f.Imports {
 			p, _ := strconv.Unquote(im.Path.Value)
-			if strings.HasSuffix(p, "/cdr/asn") {
-				alias = "asn"
+			if strings.HasSuffix(p, "/"+filepath.ToSlash(rel)) {
+				alias = pkgName
 				if im.Name != nil {
 					alias = im.Name.Name
 				}
@@ -382,17 +394,15 @@ func dumpAsnGlobals() {
 	}
 	sort.Strings(order)
 	var sb strings.Builder
-	sb.WriteString("/- GENERATED from the repository's working tree by `verifharness dump-tables asnglobals` — do not edit. -/\n")
-	sb.WriteString("import ChfVerif.Model.CodecState\nnamespace Chf.Gen\nopen Chf.CodecState\n\n")
-	sb.WriteString("/-- every package-level variable of cdr/asn: name, kind (0 reflect.Type handle, 1 scalar, 2 reference, 3 other),\n")
+	fmt.Fprintf(&sb, "/-- every package-level variable of %s: name, kind (0 reflect.Type handle, 1 scalar, 2 reference, 3 other),\n", filepath.ToSlash(rel))
 	sb.WriteString("    assignments, address-of, method calls, hand-ons of the bare variable (all outside init), writes from other packages -/\n")
-	sb.WriteString("def asnGlobals : List GlobalVar := [\n")
+	fmt.Fprintf(&sb, "def %s : List GlobalVar := [\n", leanName)
 	var rows []string
 	for _, n := range order {
 		g := globals[n]
 		rows = append(rows, fmt.Sprintf("  ⟨%q, %d, %d, %d, %d, %d, %d⟩", g.file+":"+g.name, g.kind, g.assigns, g.addrTaken, g.methodCalls, g.escapes, g.foreign))
 	}
 	sb.WriteString(strings.Join(rows, ",\n"))
-	sb.WriteString("\n]\n\nend Chf.Gen\n")
-	fmt.Print(sb.String())
+	sb.WriteString("\n]\n")
+	return sb.String()
 }
